@@ -14,6 +14,10 @@ import sys
 def load(path):
     from pegen.build import build_parser
     g, _, _ = build_parser(path)
+    # what the parser generator computes before emitting code: nullable rules, left-recursive rules and their memoised leaders
+    from pegen.parser_generator import compute_left_recursives, compute_nullables
+    compute_nullables(g.rules)
+    compute_left_recursives(g.rules)
     return g
 
 
